@@ -525,3 +525,30 @@ Proof.
   rewrite events_acts_nth by (rewrite app_length; lia).
   rewrite firstn_app. replace (S i - length a1)%nat with 0%nat by lia. rewrite <- La, firstn_all. cbn [firstn]. rewrite app_nil_r. exact A1.
 Qed.
+
+(* ---- any number of Ehrenfest / cumulative passes with the linear-rk4 electronic step ---- *)
+Theorem run_eh_rk4_trace_herm n m dt maxdt start (ds : list (kdata (T:=R))) : forall s,
+  Forall (rk_ok n) ds -> mherm n (prho s) ->
+  let sf := run_eh_rk4 ROps n m dt maxdt start ds s in
+  mherm n (prho sf) /\ mtrace ROps n (prho sf) = mtrace ROps n (prho s) /\ pact sf = pact s.
+Proof.
+  induction ds as [|d ds IH]; intros s Hok Hr; cbn [run_eh_rk4].
+  - repeat split; try reflexivity. exact Hr.
+  - pose proof (Forall_inv Hok) as (HV & H0 & H1 & Ht). pose proof (Forall_inv_tail Hok) as Hds.
+    destruct (step_eh_rk4_trace_herm n m dt maxdt start (ke0 d) (ke1 d) (keigs d) (kvecs d) s HV H0 H1 Ht Hr) as (A & B & C0).
+    destruct (IH _ Hds A) as (D & E & F). repeat split; [exact D | rewrite E; exact B | rewrite F; exact C0].
+Qed.
+
+Theorem run_cum_rk4_trace_herm n m dt maxdt start (ds : list (kdata (T:=R))) : forall s c sf cf atts,
+  run_cum_rk4 ROps n m dt maxdt start ds s c = (sf, cf, atts) -> Forall (rk_ok n) ds -> mherm n (prho s) ->
+  mherm n (prho sf) /\ mtrace ROps n (prho sf) = mtrace ROps n (prho s) /\ length atts = length ds.
+Proof.
+  induction ds as [|d ds IH]; intros s c sf cf atts H Hok Hr.
+  - cbn in H. injection H as <- <- <-. repeat split; try reflexivity. exact Hr.
+  - cbn [run_cum_rk4] in H.
+    destruct (step_cum_rk4 ROps n m dt maxdt start (ke0 d) (ke1 d) (keigs d) (kvecs d) s c) as [[[s1 c1] hp] att] eqn:Es.
+    destruct (run_cum_rk4 ROps n m dt maxdt start ds s1 c1) as [[sf' cf'] atts'] eqn:Er. injection H as <- <- <-.
+    pose proof (Forall_inv Hok) as (HV & H0 & H1 & Ht). pose proof (Forall_inv_tail Hok) as Hds.
+    destruct (step_cum_rk4_trace_herm n m dt maxdt start _ _ _ _ s s1 c c1 hp att Es HV H0 H1 Ht Hr) as [A B].
+    destruct (IH s1 c1 sf' cf' atts' Er Hds A) as (C0 & D & E). repeat split; [exact C0 | rewrite D; exact B | cbn [length]; rewrite E; reflexivity].
+Qed.
